@@ -30,6 +30,7 @@ import (
 
 	"asherahverif/doubles"
 	"asherahverif/explore"
+	"asherahverif/shim/vmap"
 	"asherahverif/shim/vsched"
 )
 
@@ -568,6 +569,9 @@ func awsSpace(r *Report, prop string, maxN int) {
 	if len(r.Samples) < 4 {
 		r.Samples = append(r.Samples, map[string]interface{}{"observed_generate_orders": os})
 	}
+	if prop == "C17" {
+		awsMapOrders(r, maxN, fail)
+	}
 }
 
 // CheckC17 runs the product for the tier's region count.
@@ -584,6 +588,102 @@ func CheckC17(r *Report) {
 }
 
 var _ = ae.AES256KeySize
+
+// permutations of 0..n-1 in lexicographic order.
+func permutations(n int) [][]int {
+	var out [][]int
+	var rec func(cur []int, used []bool)
+	rec = func(cur []int, used []bool) {
+		if len(cur) == n {
+			out = append(out, append([]int{}, cur...))
+			return
+		}
+		for i := 0; i < n; i++ {
+			if !used[i] {
+				used[i] = true
+				rec(append(cur, i), used)
+				used[i] = false
+			}
+		}
+	}
+	rec(nil, make([]bool, n))
+	return out
+}
+
+// awsMapOrders: the plugins build their clients by ranging over the region -> ARN map, whose iteration order Go leaves
+// unspecified. Every iteration order (n! of them) x every preferred region x both public constructors: the preferred
+// region is tried first for GenerateDataKey and for Decrypt, and the envelope has one entry per region.
+func awsMapOrders(r *Report, maxN int, fail func(p, sig, ops, format string, a ...interface{})) {
+	t0 := time.Now()
+	n0 := 0
+	sk := []byte("system-key-bytes-32-bytes-long!!")
+	defer func() { vmap.Order = nil }()
+	for n := 2; n <= maxN; n++ {
+		regions := c17Regions[:n]
+		for pi, perm := range permutations(n) {
+			perm := perm
+			for _, preferred := range regions {
+				for _, ver := range []string{"v1pub", "v2"} {
+					vmap.Order = func(k int) []int {
+						if k == n {
+							return perm
+						}
+						return nil
+					}
+					c := newCloud()
+					p, err := buildPlugin(ver, c, regions, preferred)
+					vmap.Order = nil
+					tag := fmt.Sprintf("n=%d preferred=%s %s map-order#%d%v", n, preferred, ver, pi, perm)
+					if err != nil {
+						fail("C17", "client-built-with-foreign-key", tag, "%s: %v", tag, err)
+						continue
+					}
+					n0++
+					env, err := p.EncryptKey(ctx, append([]byte(nil), sk...))
+					if err != nil {
+						fail("C17", "map-order:wrap-failed", tag, "%s: EncryptKey failed without any regional failure: %v", tag, err)
+						continue
+					}
+					first := ""
+					for _, cl := range c.calls {
+						if strings.HasPrefix(cl, "gen:") {
+							first = cl[4:]
+							break
+						}
+					}
+					if first != preferred {
+						fail("C17", "map-order:wrap-not-preferred-first:"+ver, tag, "%s: GenerateDataKey was first attempted in %s, not in the preferred region (calls %v)", tag, first, c.calls)
+					}
+					var ej envJSON
+					if err := json.Unmarshal(env, &ej); err != nil || len(ej.KMSKeks) != n {
+						fail("C17", "map-order:wrap-entries:"+ver, tag, "%s: the envelope has %d entries, want %d (%v)", tag, len(ej.KMSKeks), n, err)
+					}
+					c.reset()
+					out, err := p.DecryptKey(ctx, env)
+					if err != nil || !bytes.Equal(out, sk) {
+						fail("C17", "map-order:unwrap-failed:"+ver, tag, "%s: DecryptKey failed: %v", tag, err)
+						continue
+					}
+					firstDec := ""
+					for _, cl := range c.calls {
+						if strings.HasPrefix(cl, "dec:") {
+							firstDec = cl[4:]
+							break
+						}
+					}
+					if firstDec != preferred {
+						fail("C17", "map-order:unwrap-not-preferred-first:"+ver, tag, "%s: the first Decrypt went to %s although the preferred region has an entry (calls %v)", tag, firstDec, c.calls)
+					}
+				}
+			}
+		}
+	}
+	r.Runs = append(r.Runs, RunInfo{Name: "AWS/map-iteration-orders", Executions: n0, States: n0, Transitions: int64(2 * n0), Exhaustive: true,
+		Bound: fmt.Sprintf("every iteration order of the region map (n! for n = 2..%d) x every preferred region x the public constructors of both plugins", maxN), WallS: time.Since(t0).Seconds()})
+	r.Evaluations += n0
+	r.TracesValidated += n0
+	r.Transitions += int64(2 * n0)
+}
 
 // ---------------------------------------------------------------------------------
 // C17 (schedules): the plugins fan the regional Encrypt requests out to goroutines. EncryptKey (and the DecryptKey of
